@@ -21,7 +21,7 @@ LEVEL = "exploration"
 SHARDS = {"quick": 8, "thorough": 16}
 EXHAUSTIVE = {"quick": False, "thorough": False}
 RULE = ("all ordered forests with up to 5 Sections (thorough: 6) -- every shape -- x deterministic name assignments "
-        "over the prefix-related alphabet {a, ab, abc, 'a b', 'a.b', b} (all injective assignments for sibling groups "
+        "over the prefix-related alphabet {a, ab, abc, 'a b', 'a.b', b, ba, abcd} (all injective assignments for sibling groups "
         "of size <= 2, rotations for larger groups) x 0-1 Properties per Section; all ordered pairs, all starts, all "
         "depths; plus seeded random trees of 50-300 nodes; non-trivial = tree with >= 2 Sections; distinct = hash of "
         "the (shape, names) encoding")
@@ -31,7 +31,7 @@ ASSUMPTIONS = ["names are free of '/' and ':' and differ from '.' and '..'",
                "objects belong to a Document (relative paths whose common parent is the root are absolute)"]
 REQUIRED_MONITORS = ["abs-path", "rel-path", "traversal", "find"]
 
-NAMES = ["a", "ab", "abc", "a b", "a.b", "b"]
+NAMES = ["a", "ab", "abc", "a b", "a.b", "b", "ba", "abcd"]
 TYPES = ["t", "T/sub", "u", "stim/white_noise", "t"]
 
 
@@ -363,13 +363,13 @@ def random_tree(ctx, i, n):
 
 def run(ctx):
     rec = ctx.rec
-    nmax = ctx.pick(5, 6)
+    nmax = ctx.pick(5, 7)
     i = 0
     shapes_total = 0
     for n in range(1, nmax + 1):
         fs = forests(n)
         shapes_total += len(fs)
-        nvar = ctx.pick(6, 12)
+        nvar = ctx.pick(6, 12 if n <= 6 else 3)
         for shape in fs:
             for variant in range(nvar):
                 for props in (False, True):
@@ -383,7 +383,7 @@ def run(ctx):
     if ctx.shard == 0:
         rec.extra["shapes_enumerated"] = shapes_total
         rec.extra["max_sections_in_enumeration"] = nmax
-    for j in range(ctx.pick(16, 300)):
+    for j in range(ctx.pick(16, 1200)):
         if not ctx.mine(j):
             continue
         case = {"kind": "random", "i": j, "n": [50, 120, 300][j % 3]}
